@@ -44,7 +44,7 @@ class FamRun:
         name, k, r, lo, hi, L = item
         b = self.box(name)
         fam = b['fam']
-        inputs = list(util.strings(b['alpha'], L)) if isinstance(b.get('alpha'), str) else None
+        inputs = list(util.strings(b['alpha'], L)) if b.get('alpha') is not None and not b.get('no_inputs') else None
         res = new_res()
         for gi in families.slice_indices(len(fam), k, r)[lo:hi]:
             g = fam.grammar(gi)
